@@ -287,11 +287,58 @@ def device_membership(ctx, rng):
     return first
 
 
+def far_and_dense(ctx):
+    """densely sampled outlines far from the origin (vertex spacing ~1e-5 of the coordinates): every vertex is kept, areas and
+    membership are those of the shape"""
+    from tdgl.geometry import box, circle, ellipse
+
+    first = None
+    P = tdgl.Polygon
+    shapes = [("circle r=1, 1500 pts", P("c", points=circle(1.0, points=1500)), np.pi, (300.0, 400.0)),
+              ("ellipse 2x1, 1500 pts", P("e", points=ellipse(2.0, 1.0, points=1500)), 2 * np.pi, (-700.0, 150.0)),
+              ("box 2x1, 4001 pts", P("b", points=box(2.0, 1.0, points=4001)), 2.0, (250.0, -250.0)),
+              ("circle r=100 at (2e5, 1e5)", P("n", points=circle(100.0, points=2000, center=(2e5, 1e5))), np.pi * 1e4, (0.0, 0.0))]
+    for label, poly, area, (dx, dy) in shapes:
+        ctx.case(("far-dense", label), nontrivial=True)
+        ctx.count("far_dense_shapes")
+        try:
+            moved = poly.translate(dx=dx, dy=dy)
+            back = moved.translate(dx=-dx, dy=-dy)
+            probs = []
+            if len(moved.points) != len(poly.points):
+                probs.append(f"translate({dx}, {dy}) changed the number of stored vertices {len(poly.points)} -> {len(moved.points)}")
+            for nm_, q_ in (("original", poly), ("translated", moved), ("there-and-back", back)):
+                if abs(q_.area - area) > 2e-5 * area:  # (the polygon inscribed in the curve: 1500 points give 3e-6)
+                    probs.append(f"{nm_}: area {q_.area:.8g}, the shape has {area:.8g}")
+            if abs(moved.area - poly.area) > 1e-9 * poly.area:
+                probs.append(f"translation changed the area by {abs(moved.area - poly.area) / poly.area:.3e} (relative)")
+            c0 = poly.points.mean(axis=0)
+            q = c0 + np.sqrt(area) * ctx.rng.uniform(-0.9, 0.9, size=(400, 2))
+            keep = far_from_boundaries([poly], q, eps=1e-3 * np.sqrt(area))
+            if len(keep) and not np.array_equal(poly.contains_points(keep), moved.contains_points(keep + np.array([dx, dy]))):
+                probs.append("membership of interior / exterior points changed under the translation")
+            other = P("o", points=circle(0.6 * np.sqrt(area), points=800, center=tuple(c0 + np.array([dx, dy]) + 0.4 * np.sqrt(area))))
+            for opn, fn, ref in (("union", lambda a, b: a.union(b), np.logical_or), ("intersection", lambda a, b: a.intersection(b), np.logical_and),
+                                 ("difference", lambda a, b: a.difference(b), lambda u, v: u & ~v)):
+                r_ = fn(moved, other)
+                qq = far_from_boundaries([moved, other], keep + np.array([dx, dy]), eps=1e-3 * np.sqrt(area))
+                if len(qq) and not np.array_equal(r_.contains_points(qq), ref(moved.contains_points(qq), other.contains_points(qq))):
+                    probs.append(f"{opn} of the translated shape with another does not agree with point-wise membership")
+        except Exception as e:  # noqa
+            probs = [f"raised {type(e).__name__}: {str(e)[:100]}"]
+        if probs:
+            rp = dict(shape=label, problems=probs[:5])
+            ctx.fail("far-dense-shape", f"{label}: {probs[0]}", rp)
+            first = first or dict(key="far-dense-shape", what=probs[0], **rp)
+    return first
+
+
 def run(ctx):
     n = 12 if ctx.quick else 150
     for _ in range(n):
         eval_pair(ctx, ctx.rng)
     device_membership(ctx, ctx.rng)
+    far_and_dense(ctx)
     if len(ctx.samples) < 2:
         ctx.samples.append(dict(operations=sorted(k for k in ctx.dist if k.startswith("op:") or k.startswith("transform:"))))
 
@@ -302,7 +349,7 @@ def search(ctx):
         f = eval_pair(ctx, rng, with_model=False)
         if f:
             return f
-    return device_membership(ctx, rng)
+    return device_membership(ctx, rng) or far_and_dense(ctx)
 
 
 def replay(payload):
